@@ -603,7 +603,12 @@ def finish(prop, tier, seed, level, stats, t0, rule, min_conclusive, assumptions
         print("NOTE " + note.replace("\n", " | ")[:1500])
     if seen:
         os.makedirs(rdir, exist_ok=True)
+        shown = 0
         for sig, v in sorted(seen.items()):
+            shown += 1
+            if shown > 12:
+                print("... %d more distinct violation signatures not written" % (len(seen) - 12))
+                break
             body = {"property": prop, "tier": tier, "seed": seed, "signature": sig,
                     "summary": v["summary"], "unit": enc(v["unit"]), "detail": enc(v["detail"])}
             name = hashlib.sha1((prop + sig + json.dumps(body["unit"], sort_keys=True)).encode()).hexdigest()[:16]
